@@ -34,10 +34,13 @@ static void fail15(const char *cls, const char *fmt, ...)
 static char *pwfile(void)
 {
 	static char buf[900];
+	char h1[120], h2[120]; /* crypt() returns a static buffer: one call per statement */
+	snprintf(h1, sizeof(h1), "%s", crypt("pw-one", "$1$abcdefgh$"));
+	snprintf(h2, sizeof(h2), "%s", crypt("pw-adm", "$1$hgfedcba$"));
 	snprintf(buf, sizeof(buf),
 	         "{\"users\":{\"u1\":{\"password\":\"%s\",\"auth\":{\"fetchGroups\":[\"g1\"],\"setGroups\":[\"g1\"],\"callGroups\":[\"g1\"]}},"
 	         "\"adm\":{\"password\":\"%s\",\"admin\":true,\"auth\":{\"fetchGroups\":[\"g1\"],\"setGroups\":[\"g1\"],\"callGroups\":[\"g1\"]}}}}",
-	         crypt("pw-one", "$1$abcdefgh$"), crypt("pw-adm", "$1$hgfedcba$"));
+	         h1, h2);
 	return buf;
 }
 
